@@ -568,7 +568,7 @@ def check_append(ctx, rule):
     ok = len(paths) == 1
     for pa in paths:
         w = [e for e in pa.events if e.kind == "call" and is_call(e.data["term"], method="write")]
-        if pa.outcome != "return" or len(w) != 1 or len(w[0].data["args"]) != 1 or show(w[0].data["args"][0]) != "data" or show(w[0].data["term"].args[0]) != "self.buffer.write":
+        if pa.outcome != "return" or len(w) != 1 or len(w[0].data["args"]) != 1 or show(w[0].data["args"][0]) != f.params()[1] or show(w[0].data["term"].args[0]) != "self.buffer.write":
             ok = False
     ctx.check(ok, rule, f.short, "writes exactly its argument, once", "Buffer.append does not write exactly its argument once", fi=f, text="append")
     s = B.find_setter("data")
